@@ -383,6 +383,100 @@ fn blocked_family() -> Value {
 }
 
 
+
+// ------------------------------------------------------------------ (e) all or nothing while the environment refuses commands
+
+/// The transfer transaction arrives one command per loop iteration while another connection pauses and unpauses the
+/// clients in every combination of the five gaps (before MULTI ... after EXEC): whatever is refused or accepted, the
+/// transfer happens completely or not at all, and EXEC's array has one slot per command that was answered QUEUED
+/// (a seeded reordering applied the pause check before the queueing: a command refused during the pause was missing
+/// from the transaction, EXEC ran the rest).
+fn pause_family(io: &mut WorkerIo) -> Value {
+    thread_local! { static HP: std::cell::RefCell<Option<Harness>> = const { std::cell::RefCell::new(None) }; }
+    HP.with(|hh| {
+        let mut hh = hh.borrow_mut();
+        if hh.is_none() {
+            *hh = Some(Harness::new(SrvOpts::default()));
+        }
+        let h = hh.as_mut().unwrap();
+        let mut recs = Vec::new();
+        let mut errors = Vec::new();
+        let mut n = 0u64;
+        let env: [Option<Vec<&str>>; 3] = [None, Some(vec!["CLIENT", "PAUSE", "100000"]), Some(vec!["CLIENT", "UNPAUSE"])];
+        let tx: Vec<Vec<&str>> = vec![vec!["MULTI"], vec!["DECRBY", "a", "1"], vec!["INCRBY", "b", "1"], vec!["EXEC"]];
+        for code in 0..3usize.pow(5) {
+            let mut gaps = [0usize; 5];
+            let mut x = code;
+            for g in gaps.iter_mut() {
+                *g = x % 3;
+                x /= 3;
+            }
+            n += 1;
+            io.announce_case(json!({"pause_family": code}));
+            let mut run = || -> Result<Option<Value>, String> {
+                h.ensure()?;
+                let _ = h.aux_call(&["CLIENT", "UNPAUSE"]);
+                h.aux_call(&["FLUSHALL"])?;
+                h.aux_call(&["MSET", "a", "10", "b", "20"])?;
+                let srv = h.srv.as_ref().unwrap();
+                let mut t = srv.connect().map_err(|e| format!("{:?}", e))?;
+                let mut e = srv.connect().map_err(|e| format!("{:?}", e))?;
+                let mut t_frames: Vec<R> = Vec::new();
+                let mut steps_desc: Vec<String> = Vec::new();
+                for i in 0..5 {
+                    if let Some(c) = &env[gaps[i]] {
+                        e.send(&resp::cmd(c));
+                        let _ = srv.steps(2);
+                        e.poll();
+                        while let Ok(Some(_)) = e.take_frame() {}
+                        steps_desc.push(format!("(other connection) {}", c.join(" ")));
+                    }
+                    if i < tx.len() {
+                        t.send(&resp::cmd(&tx[i]));
+                        let _ = srv.steps(2);
+                        t.poll();
+                        while let Ok(Some(f)) = t.take_frame() {
+                            steps_desc.push(format!("{} -> {}", tx[i].join(" "), resp::show(&f)));
+                            t_frames.push(f);
+                        }
+                    }
+                }
+                t.discard();
+                e.discard();
+                let _ = h.srv.as_ref().unwrap().steps(2);
+                let _ = h.aux_call(&["CLIENT", "UNPAUSE"]);
+                let fin = h.aux_call(&["MGET", "a", "b"])?;
+                let queued = t_frames.iter().filter(|f| **f == R::Simple(b"QUEUED".to_vec())).count();
+                let mut problems: Vec<&str> = Vec::new();
+                let both = R::Arr(vec![R::Bulk(b"9".to_vec()), R::Bulk(b"21".to_vec())]);
+                let none = R::Arr(vec![R::Bulk(b"10".to_vec()), R::Bulk(b"20".to_vec())]);
+                if fin != both && fin != none {
+                    problems.push("half-of-the-transaction-was-executed");
+                }
+                if let Some(R::Arr(v)) = t_frames.last() {
+                    if v.len() != queued {
+                        problems.push("EXEC-array-does-not-have-one-slot-per-queued-command");
+                    }
+                }
+                if problems.is_empty() {
+                    return Ok(None);
+                }
+                Ok(Some(json!({"problems": problems, "steps": steps_desc, "final": resp::show(&fin)})))
+            };
+            match run() {
+                Ok(None) => {}
+                Ok(Some(v)) => {
+                    for p in v["problems"].as_array().cloned().unwrap_or_default() {
+                        recs.push(json!({"problem": p, "steps": v["steps"], "final": v["final"], "code": code}));
+                    }
+                }
+                Err(e) => errors.push(format!("pause family {}: {}", code, e)),
+            }
+        }
+        json!({"recs": recs, "errors": errors, "n": n})
+    })
+}
+
 // ------------------------------------------------------------------ (d) a queued command does what the direct command does
 
 /// For every alphabet of the data-type searches and every history up to the depth: each command of the menu is run
@@ -515,6 +609,9 @@ fn exec_differential(spec: &str, depth: usize, part: u64, parts: u64, io: &mut W
 }
 
 fn extra_worker(_tier: &str, task: &Value, _io: &mut WorkerIo) -> Option<Value> {
+    if task.get("pausefam").is_some() || task.get("replay").map(|r| r["kind"] == "pausefam").unwrap_or(false) {
+        return Some(pause_family(_io));
+    }
     if let Some(t) = task.get("execdiff").or_else(|| task.get("replay").and_then(|r| r.get("execdiff"))) {
         return Some(exec_differential(t["spec"].as_str().unwrap_or(""), t["depth"].as_u64().unwrap_or(1) as usize, t["part"].as_u64().unwrap_or(0), t["parts"].as_u64().unwrap_or(1), _io));
     }
@@ -599,6 +696,21 @@ fn extra_parent(pool: &Pool, tier: &str, report: &mut RunReport) -> Value {
         Outcome::Died { status, case } => report.machinery_errors.push(format!("blocked-waiter worker died: {} {:?}", status, case)),
     }
     println!("  c07-blocked-waiters: scenarios={}", blocked_n);
+    // (e) the pause family: one task
+    let mut pause_n = 0u64;
+    match &pool.map(vec![json!({"pausefam": true})], 0)[0] {
+        Outcome::Done(v) => {
+            for e in v["errors"].as_array().cloned().unwrap_or_default() {
+                report.machinery_errors.push(format!("{}", e));
+            }
+            pause_n = v["n"].as_u64().unwrap_or(0);
+            for r in v["recs"].as_array().cloned().unwrap_or_default() {
+                report.deviations.push(Deviation { property: "C07".into(), sig: format!("C07|PAUSE|{}", r["problem"].as_str().unwrap_or("")), replay: json!({"kind": "pausefam", "detail": r}) });
+            }
+        }
+        Outcome::Died { status, case } => report.machinery_errors.push(format!("pause family worker died: {} {:?}", status, case)),
+    }
+    println!("  c07-pause: sequences={}", pause_n);
     // (d) direct vs queued, over the data-type alphabets
     let mut ed_tasks = Vec::new();
     let specs: Vec<&str> = if thorough { super::c12::SPECS.to_vec() } else { super::c12::SPECS[..8].to_vec() };
@@ -666,7 +778,8 @@ fn extra_parent(pool: &Pool, tier: &str, report: &mut RunReport) -> Value {
     if outcomes.len() < 2 {
         report.machinery_errors.push("vacuity: all isolation schedules produced the same replies (nothing interleaved)".into());
     }
-    json!({"queued_vs_direct": {"cases": ed_cases, "direct_command_succeeds_in": ed_nontrivial, "rule": "every command of the C01/C03/C04/C15/C16 alphabets (thorough: also C02's and the full ones) at every state reached by histories up to depth 1 (thorough 2 on eight alphabets): the command directly vs MULTI, the command, EXEC on a fresh replay: the element of the EXEC reply equals the direct reply (same normalisation as C12), a command refused when queued also fails directly, the raw dataset afterwards is the same"},
+    json!({"pause_family": {"sequences": pause_n, "rule": "MULTI / DECRBY a 1 / INCRBY b 1 / EXEC, one command per loop iteration, with another connection sending nothing / CLIENT PAUSE / CLIENT UNPAUSE in each of the five gaps (3^5 combinations): a and b end as (9, 21) or (10, 20), EXEC's array has one slot per command answered QUEUED"},
+        "queued_vs_direct": {"cases": ed_cases, "direct_command_succeeds_in": ed_nontrivial, "rule": "every command of the C01/C03/C04/C15/C16 alphabets (thorough: also C02's and the full ones) at every state reached by histories up to depth 1 (thorough 2 on eight alphabets): the command directly vs MULTI, the command, EXEC on a fresh replay: the element of the EXEC reply equals the direct reply (same normalisation as C12), a command refused when queued also fails directly, the raw dataset afterwards is the same"},
         "blocked_waiter_scenarios": {"executions": blocked_n, "rule": "7 transaction bodies that push to a key x 6 sets of clients blocked on it (BLPOP, BRPOP, both, two keys, timed) x {one write, one command per iteration}: the EXEC reply equals that of the same transaction with nobody waiting, and what the waiters got plus what is left equals what the transaction alone leaves behind"},
         "isolation_schedules": {"executions": n, "variants": ["one command per chunk", "fragmented mid-command", "script"], "connection_orders": orders.len(), "distinct_reply_patterns": outcomes.len(), "samples": samples}})
 }
